@@ -51,6 +51,28 @@ def gen_scripts(r, n):
                     sc.append(('S', i, 'r', 10 * MS, 'fcx'[i % 3]) if c == 'S' else ('E', 'fx'[i % 2]) if c == 'E' else ('L', 'max', 'f'))
                 sc += [('T', 40 * MS), ('CO',), ('S', 9, 'r', 10 * MS, 'f'), ('F', 0, 'g')]
                 cases.append((dict(base, mt=0), sc))
+    # settings through the FFI handle (try_send): refused while the queue is full, the retry must then really take effect
+    for first in ('x', 'f'):
+        for k in 'ge':
+            one = dict(base, cap=1, mt=0)
+            cases.append((one, [('E', first), ('CO',), S(0), ('D', 'x'), ('E', 'x'), ('F', 0, k), ('E', 'x'), ('T', 1 * MS), ('CO',), S(1), ('F', 1, 'g')]))
+            cases.append((one, [('E', first), ('CO',), S(0), ('D', 'x'), ('E', 'x'), ('E', 'x'), ('F', 0, k), ('D', 'x'), ('T', 1 * MS), ('E', 'x'), ('T', 1 * MS)]))
+            cases.append((one, [('E', first), ('CO',), ('D', 'x'), ('T', 1 * MS), ('E', 'x'), ('T', 1 * MS), ('D', 'x'), ('D', 'x'), ('E', 'x'), ('E', 'x'), ('T', 1 * MS)]))
+            cases.append((one, [('D', 'x'), ('E', first), ('CE',), ('D', 'x'), ('T', 20 * MS), ('E', 'x'), ('E', 'x'), ('T', 1 * MS)]))
+    # a long outage in virtual time (the harness's connect loop uses the real RetryStrategy object): 45 failed connects in a row
+    for rmin, rmax in ((1 * MS, 4 * MS), (1 * MS, 1000 * MS), (7, 1 * MS)):
+        cfg = dict(base, mt=0, rmin=rmin, rmax=rmax)
+        sim = cl.Sim(cfg)
+        sc = []
+        for st in [('E', 'f')] + [None] * 45:
+            if st is None:
+                sc.append(('CE',))
+                sim.apply(sc[-1])
+                st = ('T', max(1, cl.fires_at(sim.until) - sim.now))
+            sc.append(st)
+            sim.apply(st)
+        sc += [('S', 0, 'r', 5 * MS, 'f'), ('CO',), ('S', 1, 'r', 5 * MS, 'c'), ('F', 0, 'g'), ('X',)]
+        cases.append((cfg, sc))
     # the transmit side: shutdown / disable / requests queued behind a write the transport does not take
     cases += [c for c, _ in cl.gen_parked(r)]
     w = {'S': 4, 'T': 5, 'E': 4, 'D': 3, 'L': 0.3, 'H': 0.5, 'A': 0.15, 'X': 0.7, 'W': 0.3, 'V': 0.1,
@@ -73,9 +95,10 @@ class Scenario:
     """builds, in lock step, the harness script for the real task over loopback and the event script for the model;
     the replica only tells how many listener notifications / completions to wait for and where to hold the task"""
 
-    def __init__(self, mt, rms=RMS):
+    def __init__(self, mt, rms=RMS, rmax=None):
         self.rms = rms
-        self.cfg = {'cap': 64, 'handles': 1, 'mt': mt, 'rmin': rms * MS, 'rmax': 2 * rms * MS}   # cap: never fills (a full queue would block the script's own calls while the task is held)
+        self.rmax = rmax or 2 * rms
+        self.cfg = {'cap': 64, 'handles': 1, 'mt': mt, 'rmin': rms * MS, 'rmax': self.rmax * MS}   # cap: never fills (a full queue would block the script's own calls while the task is held)
         self.sim = cl.Sim(self.cfg)
         self.h = []               # harness steps
         self.m = []               # model steps
@@ -262,7 +285,7 @@ class Scenario:
 
     def finish(self):
         self.h.append('sleep:60')
-        return (f'cap=64 mt={self.cfg["mt"]} rmin={self.rms} rmax={2 * self.rms} | ' + ' '.join(self.h), (self.cfg, self.m))
+        return (f'cap=64 mt={self.cfg["mt"]} rmin={self.rms} rmax={self.rmax} | ' + ' '.join(self.h), (self.cfg, self.m))
 
 
 def gen_loopback(r, n):
@@ -290,6 +313,13 @@ def gen_loopback(r, n):
             for o in [('env', 'refuse'), 'enable', ('during_wait', cmds), ('env', env2), ('during_wait', list(reversed(cmds))), 'shutdown']:
                 sc.op(*((o,) if isinstance(o, str) else o))
             out.append(sc)
+    # a long outage: 45 refused connects in a row with tiny delays (1, 2, 4, 4, ... ms): a wait state after EVERY failed connect,
+    # requests fail fast all along, then the peer comes up / the channel is shut down (Shutdown once and last)
+    for tail in (['submit', 'shutdown'], [('env', 'serve'), 'retry', 'submit', 'drop']):
+        sc = Scenario(0, rms=1, rmax=4)
+        for o in [('env', 'refuse'), 'enable'] + ['retry'] * 44 + tail:
+            sc.op(*((o,) if isinstance(o, str) else o))
+        out.append(sc)
     sc = Scenario(0, rms=800)
     for o in [('env', 'close'), 'enable', ('env', 'serve'), ('during_wait', ['S', 'L', 'E']), 'submit', 'drop']:
         sc.op(*((o,) if isinstance(o, str) else o))
